@@ -13,6 +13,25 @@ package sem
 
 //@ pure func withinLimit(n int) bool = MaxInputLength == 0 || n <= MaxInputLength
 
+// ---- C03: the grammar, transcribed production by production from the BNF at semver.org --------------------------
+//@ regex bnfDigit = "[0-9]"
+//@ regex bnfPosDigit = "[1-9]"
+//@ regex bnfNonDigit = "(?:[A-Za-z]|-)"
+//@ regex bnfIdentChar = "(?:" + bnfDigit + "|" + bnfNonDigit + ")"
+//@ regex bnfIdentChars = bnfIdentChar + "+"
+//@ regex bnfDigits = bnfDigit + "+"
+//@ regex bnfNumIdent = "(?:0|" + bnfPosDigit + "|" + bnfPosDigit + bnfDigits + ")"
+//@ regex bnfAlnumIdent = "(?:" + bnfNonDigit + "|" + bnfNonDigit + bnfIdentChars + "|" + bnfIdentChars + bnfNonDigit + "|" + bnfIdentChars + bnfNonDigit + bnfIdentChars + ")"
+//@ regex bnfPreIdent = "(?:" + bnfAlnumIdent + "|" + bnfNumIdent + ")"
+//@ regex bnfBuildIdent = "(?:" + bnfAlnumIdent + "|" + bnfDigits + ")"
+//@ regex bnfPre = bnfPreIdent + "(?:\\." + bnfPreIdent + ")*"
+//@ regex bnfBuild = bnfBuildIdent + "(?:\\." + bnfBuildIdent + ")*"
+//@ regex bnfCore = bnfNumIdent + "\\." + bnfNumIdent + "\\." + bnfNumIdent
+//@ regex bnfSemver = "(?:" + bnfCore + "|" + bnfCore + "-" + bnfPre + "|" + bnfCore + "\\+" + bnfBuild + "|" + bnfCore + "-" + bnfPre + "\\+" + bnfBuild + ")"
+//@ lang [C03.grammar] pattern == bnfSemver
+//@ lang [C03.grammar] preRelease == bnfPre
+//@ lang [C03.grammar] build == bnfBuild
+
 // ---- C03: the text form ------------------------------------------------------------------------------------------
 // rest(w): the text without the optional leading 'v'
 //@ pure func hasV(w bytes) bool = len(w) > 0 && w[0] == 'v'
